@@ -4,6 +4,8 @@ L1: Lean: harmonic-oscillator symbols in the scaled number basis — the four tw
     frequency parameter and origin.
 L2: replay of the REAL BasisSHO.op_mat against the Lean model with the explicit diagonal scaling
     M_code[m,n] = M_model[m,n]·sqrt(m!/n!) for rational s = sqrt(1/2ω) and origins x0.
+    Exact replay of BasisHalfSpin.op_mat (all aliases, random product words, unknown symbols) and of both multi-electron
+    classes against Model/Spin (Props/C16Spin: Pauli algebra, product in written order, transition-operator algebra).
 L3: defining relations of every basis class, builders vs independent dense Hamiltonians (search_c16)."""
 import math
 from fractions import Fraction
@@ -21,7 +23,7 @@ def main():
     run = Run("C16", level="proof")
     quick = run.tier != "thorough"
     rng = np.random.default_rng(run.seed)
-    l1 = run.l1(["RenoVerif/Props/C16.lean"])
+    l1 = run.l1(["RenoVerif/Props/C16.lean", "RenoVerif/Props/C16Spin.lean"])
     if not l1["build_ok"]:
         raise Infra("hand-written Lean library failed to build/audit: " + str(l1.get("bad")) + l1.get("log", "")[-800:])
     from renormalizer.model.basis import BasisSHO
@@ -46,8 +48,55 @@ def main():
         meta.append((dict(symbol=sym, N=N, s=str(s), omega=omega, x0=str(x0)), m))
         run.count("symbol=" + sym)
         run.count("x0!=0" if x0 != 0 else "x0=0")
-    replies = common.run_driver("RenoVerif/Driver/C16.lean", reqs)
+    # ---- spin-1/2 and multi-electron tables (Model/Spin, Props/C16Spin): every alias, random product words, unknown
+    #      symbols; every accepted / rejected two-symbol product of both multi-electron classes
+    from renormalizer.model.basis import BasisHalfSpin, BasisMultiElectron, BasisMultiElectronVac
+    from renormalizer.model import Op
+    aliases = ["I", "sigma_x", "X", "x", "sigma_y", "Y", "y", "isigma_y", "iY", "iy", "sigma_z", "Z", "z", "sigma_-", "-", "sigma_+", "+"]
+    words = [[a] for a in aliases] + [["sigma_w"], ["XX"], ["sigma_x", "q"]]
+    for _ in range(60 if quick else 600):
+        words.append([aliases[int(rng.integers(len(aliases)))] for _ in range(int(rng.integers(2, 6)))])
+    hs = BasisHalfSpin("s")
+    tab_reqs, tab_meta = [], []
+    for w in words:
+        try:
+            m = np.asarray(hs.op_mat(" ".join(w)), dtype=complex)
+            impl = " ".join(f"{int(round(z.real))}:{int(round(z.imag))}" for z in m.ravel()) \
+                if np.abs(m - np.round(m)).max() == 0 else "non-integer " + repr(m.tolist())
+        except ValueError:
+            impl = "unsupported"
+        except Exception as e:  # noqa
+            impl = "raises " + type(e).__name__
+        tab_reqs.append("spin " + ";".join(w))
+        tab_meta.append((dict(basis="BasisHalfSpin", symbol=" ".join(w)), impl))
+        run.count(f"spin-word-length={len(w)}")
+    for vac in (0, 1):
+        for _ in range(30 if quick else 300):
+            n = int(rng.integers(1, 6))
+            i, j = int(rng.integers(n)), int(rng.integers(n))
+            opn = ["adagA", "aAdag", "adag", "a"][int(rng.integers(4))]
+            dofs = [f"e{k}" for k in range(n)]
+            bas = BasisMultiElectronVac(dofs) if vac else BasisMultiElectron(dofs, [0] * n)
+            sym = {"adagA": r"a^\dagger a", "aAdag": r"a a^\dagger", "adag": r"a^\dagger", "a": "a"}[opn]
+            op = Op(sym, [dofs[i], dofs[j]] if opn in ("adagA", "aAdag") else dofs[i])
+            try:
+                m = np.asarray(bas.op_mat(op))
+                impl = " ".join(str(int(x)) for x in m.ravel()) if np.abs(m - np.round(m)).max() == 0 else "non-integer"
+            except ValueError:
+                impl = "unsupported"
+            except Exception as e:  # noqa
+                impl = "raises " + type(e).__name__
+            tab_reqs.append(f"me {vac} {opn} {n} {i} {j}")
+            tab_meta.append((dict(basis=type(bas).__name__, n=n, symbol=sym, dofs=[i, j]), impl))
+            run.count(f"multi-electron:{'vac' if vac else 'plain'}:{opn}")
+    replies = common.run_driver("RenoVerif/Driver/C16.lean", reqs + tab_reqs)
     distinct = set()
+    for (case, impl), req, rep in zip(tab_meta, tab_reqs, replies[len(reqs):]):
+        distinct.add(req)
+        if rep != impl:
+            run.violation("corr:site-table:" + case["basis"], dict(correspondence="RenoVerif.Spin tables vs " + case["basis"] + ".op_mat",
+                                                                   case=case, request=req, model=rep, impl=impl), no_input=True)
+    replies = replies[:len(reqs)]
     for (case, m), req, rep in zip(meta, reqs, replies):
         if rep == "unsupported":
             run.count("model-unsupported")
@@ -75,7 +124,8 @@ def main():
             run.violation(sig, dict(case=case, deviation=dev, impl=[[str(z) for z in r] for r in m.tolist()],
                                     model_scaled=[[str(z) for z in r] for r in model_code.tolist()],
                                     what="BasisSHO.op_mat differs from the (restricted) product of the exact operators in the written order"))
-    run.cov.update(programs=len(reqs), disagreements_checked=len(reqs), evaluations=len(reqs), distinct_nontrivial=len(distinct),
+    run.cov.update(programs=len(reqs) + len(tab_reqs), disagreements_checked=len(reqs) + len(tab_reqs), evaluations=len(reqs) + len(tab_reqs),
+                   distinct_nontrivial=len(distinct),
                    rule="random (symbol, N in 1..7, s = sqrt(1/2w) in {1/2,1,2,3/4,5/4}, x0 in {0,1/2,-3/2}); distinct = distinct request")
     try:
         import search_c16
@@ -89,8 +139,8 @@ def main():
             run.cov["search_evaluations"] = run.cov["evaluations"]
             run.cov["evaluations"] = ev0 + run.cov["search_evaluations"]
             run.cov["distinct_nontrivial"] = dn0 + run.cov.get("distinct_nontrivial", 0)
-    run.assumptions += ["general powers x^k, p^k (k > 2), DVR variants, sine-DVR integrals, spin/electron tables and the model builders are "
-                        "validated by the dense oracle only (partial)",
+    run.assumptions += ["general powers x^k, p^k (k > 2), DVR variants, sine-DVR integrals and the model builders are "
+                        "validated by the dense oracle only (partial); spin-1/2 and multi-electron tables are replayed exactly against Model/Spin",
                         "similarity scaling sqrt(m!/n!) is evaluated in float64; tolerance 1e-12 relative"]
     return run.finish()
 
